@@ -371,11 +371,32 @@ pub fn run(ch: &mut Chooser, cfg: &RunCfg) -> RunResult {
             raw.threshold = threshold;
         })
         .expect("doc");
-    let (repo, identity) = Repository::init(&doc, &server, &actors[0].signer).expect("Repository::init");
+    // Sometimes the delegate set grew after the repository was created: the root document names only the
+    // founder, a later revision (adopted by the founder alone) names everybody.
+    let grown = k >= 2 && ch.pick(3) != 0;
+    let root_doc = if grown {
+        let project = Project::new("sim".try_into().unwrap(), "fetch world".to_string(), radicle::git::RefString::try_from("master").unwrap()).expect("project");
+        Doc::initial(project, dids[0], Visibility::Public)
+    } else {
+        doc.clone()
+    };
+    let (repo, identity) = Repository::init(&root_doc, &server, &actors[0].signer).expect("Repository::init");
     repo.set_remote_identity_root_to(&actors[0].nid, identity).expect("set_remote_identity_root_to");
     repo.set_identity_head_to(identity).expect("set_identity_head_to");
-    let rid = repo.id;
     let mut res = RunResult::new();
+    if grown {
+        let mut idm = radicle::cob::identity::Identity::load_mut(&repo).expect("identity");
+        let rev = idm.update("add delegates", "", &doc, &actors[0].signer).expect("identity update");
+        assert_eq!(idm.current, rev, "the founder alone adopts the revision");
+        repo.set_identity_head_to(rev).expect("set_identity_head_to");
+        let idref = format!("refs/namespaces/{}/refs/rad/id", actors[0].nid);
+        if repo.backend.refname_to_id(&idref).is_ok() {
+            repo.backend.reference(&idref, *rev, true, "sim").expect("rad/id");
+        }
+        repo.sign_refs(&actors[0].signer).expect("sign_refs");
+        res.hit("probe.fetch.delegates_added_after_creation");
+    }
+    let rid = repo.id;
     res.trace.log("setup", format!("delegates={k} threshold={threshold} others={others} fetcher={} faults={faults}", actors[l].name));
     res.summary = format!("{k} delegate(s), threshold {threshold}, {others} other(s), fetcher {}, faults={faults}", actors[l].name);
     let mut w = World { ch, own, res, dir, server, rid, threshold, actors, l, lst, commits: Vec::new(), tampered: BTreeMap::new(), time: 1_700_000_000, thorough: cfg.tier_thorough, broken: BTreeSet::new(), last_mode: 0, forged_at: BTreeMap::new() };
